@@ -74,7 +74,62 @@ def build(case):
     return Indentation(data=arr, metadata=meta), tr, Fmax, sigma
 
 
+def sequence_case(case):
+    """two exact curves fitted one after the other, both starting from the
+    parameters nanite hands out (get_initial_fit_parameters); for the
+    first one the caller also fixes the baseline.  The second fit recovers
+    its own generating parameters (nothing carries over)."""
+    from .. import state
+    state.restore()
+    out = []
+    mk = case["model"]
+    for k, sub in enumerate(case["curves"]):
+        c = dict(case, **sub)
+        idnt, tr, Fmax, sigma = build(c)
+        P = idnt.get_initial_fit_parameters(model_key=mk)
+        for n in P:
+            if n not in (EKEY[mk], "contact_point", "baseline") \
+                    and not P[n].expr:
+                P[n].set(value=tr[n], vary=False)
+        P[EKEY[mk]].set(value=c["E"] * 1.3)
+        P["contact_point"].set(value=c["cp"] + 0.03 * DEPTH)
+        if k == 0:
+            P["baseline"].set(value=c["baseline"], vary=False)
+        else:
+            P["baseline"].set(value=c["baseline"] + 0.03 * Fmax)
+        try:
+            idnt.fit_model(model_key=mk, params_initial=P,
+                           segment=c["segment"], weight_cp=0)
+        except BaseException as e:
+            if isinstance(e, (KeyboardInterrupt, SystemExit, MemoryError)):
+                raise
+            out.append(V(PROP, "fit-raises", site=f"{mk}:sequence",
+                         witness=f"curve{k}", detail=repr(e), case=case,
+                         kind="sequence"))
+            break
+        fp = idnt.fit_properties
+        pf = fp.get("params_fitted")
+        if not fp.get("success") or pf is None:
+            out.append(V(PROP, "success-flag", site=f"{mk}:sequence",
+                         witness=f"curve{k}", detail="unsuccessful",
+                         case=case, kind="sequence"))
+            break
+        eE = abs(pf[EKEY[mk]].value / c["E"] - 1)
+        ecp = abs(pf["contact_point"].value - c["cp"]) / DEPTH
+        eb = abs(pf["baseline"].value - c["baseline"]) / Fmax
+        if not max(eE, ecp, eb) <= 1e-6:
+            out.append(V(PROP, "param-recovery", site=f"{mk}:sequence",
+                         witness=f"curve{k}", detail=f"curve {k} of a "
+                         f"sequence: errors E {eE:.2e}, contact point "
+                         f"{ecp:.2e}, baseline {eb:.2e} (> 1e-6)", case=case,
+                         kind="sequence"))
+            break
+    return out, ("sequence",)
+
+
 def case_fn(case):
+    if case.get("kind") == "sequence":
+        return sequence_case(case)
     from nanite import model as nmodel
     out = []
     mk = case["model"]
@@ -245,7 +300,19 @@ def cases(tier):
                 if key not in seen:
                     seen.add(key)
                     short.append(d)
-    return cs + sub + short
+    seqs = []
+    for mk in GEOM:
+        for seg in (0, 1):
+            seqs.append({
+                "kind": "sequence", "model": mk, "geom": GEOM[mk][1][0],
+                "n": 300, "nonuniform": False, "noise": 0.0, "seed": 0,
+                "curves": [
+                    {"E": 3e3, "cp": 0.0, "baseline": 2e-10, "segment": seg},
+                    {"E": 3e4, "cp": 5e-7, "baseline": 0.0,
+                     "segment": 1 - seg},
+                    {"E": 300.0, "cp": 0.0, "baseline": -1e-10,
+                     "segment": seg}]})
+    return cs + sub + short + seqs
 
 
 def replay(doc):
